@@ -367,11 +367,7 @@ Lemma update_char m ts v : parse_ev ts = Some v ->
                  (hset id {| e_name := n; e_ip := a; e_exp := exp_opt (v_exp v) |} (heap m))
                  (install m id (v_exp v)) (nid m),
             [])
-  | None, None =>
-      Some (mk m (ddel_val (nid m) (dset b (nid m) (dset n (nid m) (dict m))))
-                 (hset (nid m) {| e_name := n; e_ip := b; e_exp := None |} (hset (nid m) blank (heap m)))
-                 (cancel_call (nid m) (calls m)) (nid m + 1),
-            expired_block (lst m) n ++ added_block (lst m) n b)
+  | None, None => Some (m, [])
   | None, Some a =>
       Some (mk m (dset b (nid m) (dset n (nid m) (dict m)))
                  (hset (nid m) {| e_name := n; e_ip := a; e_exp := exp_opt (v_exp v) |} (hset (nid m) blank (heap m)))
@@ -393,10 +389,9 @@ Proof.
       cbn [dict heap calls now nid lst]. rewrite hset_same. cbn [e_name]. reflexivity.
     + rewrite ME. unfold set_calls, set_heap, mk, install, hget. cbn [dict heap calls now nid lst].
       destruct (v_exp v); reflexivity.
-  - unfold addr_update. rewrite Pick, Wa, Wb. cbn [andb]. rewrite Na. fold n. rewrite <- Kb.
-    rewrite Ad, <- Kb. cbn [dict heap calls now nid lst]. destruct (beqb b w_ERROR) eqn:Eb.
-    + unfold expire, notify_expired, notify_added, name_of, hget, set_dict, set_calls, set_heap, mk, expired_block, added_block.
-      cbn [dict heap calls now nid lst]. rewrite !hset_same. cbn [e_name e_ip e_exp]. reflexivity.
+  - rewrite <- Kb. rewrite Ad. rewrite <- Kb. destruct (beqb b w_ERROR) eqn:Eb; [reflexivity|].
+    unfold addr_update. rewrite Pick, Wa, Wb. cbn [andb]. rewrite Na. fold n. rewrite <- Kb.
+    rewrite Eb. cbn [dict heap calls now nid lst].
     + rewrite ME. unfold hget, set_calls, set_heap. cbn [dict heap calls now nid lst].
       destruct (v_exp v) as [|t]; cbn [exp_opt]; cbn [dict heap calls now nid lst]; rewrite hset_same;
         unfold notify_added, mk, install, added_block; cbn [dict heap calls now nid lst e_name e_ip app]; reflexivity.
@@ -646,61 +641,21 @@ Section Sim.
     - apply HR.
   Qed.
 
-  (* ---- an <error> mapping for a name that is not held: allocated and dropped at once ---- *)
-  Lemma R_nerr m s n b e :
-    R m s -> In n NS -> ~ In b NS -> s_map s n = None ->
-    R (mk m (ddel_val (nid m) (dset b (nid m) (dset n (nid m) (dict m))))
-            (hset (nid m) e (hset (nid m) blank (heap m)))
-            (cancel_call (nid m) (calls m)) (nid m + 1))
-      {| s_now := s_now s; s_map := sdel n (s_map s); s_names := names_add n (s_names s); s_lst := s_lst s |}.
+  (* ---- an <error> mapping for a name that is not held: nothing changes ---- *)
+  Lemma R_nerr m s n :
+    R m s -> In n NS -> s_map s n = None ->
+    R m {| s_now := s_now s; s_map := sdel n (s_map s); s_names := names_add n (s_names s); s_lst := s_lst s |}.
   Proof.
-    intros HR Hn Hb Sn.
-    assert (Dn : dict m n = None).
-    { pose proof (R_name _ _ HR n Hn) as A. rewrite Sn in A. exact A. }
-    assert (Del : forall k i, ddel_val (nid m) (dset b (nid m) (dset n (nid m) (dict m))) k = Some i <->
-                              dict m k = Some i /\ k <> b /\ k <> n).
-    { intros k i. unfold ddel_val, dset. destruct (beqb b k) eqn:Eb.
-      - rewrite N.eqb_refl. apply beqb_eq in Eb. subst k. split; [discriminate|intros (_ & A & _); congruence].
-      - apply beqb_false_neq in Eb. destruct (beqb n k) eqn:En.
-        + rewrite N.eqb_refl. apply beqb_eq in En. subst k. split; [discriminate|intros (_ & _ & A); congruence].
-        + apply beqb_false_neq in En. destruct (dict m k) as [v|] eqn:Dk.
-          * assert (v =? nid m = false) as -> by (apply N.eqb_neq; pose proof (R_fresh _ _ HR _ _ Dk); lia).
-            split; [intros A; injection A as <-; auto|intros (A & _); exact A].
-          * split; [discriminate|intros (A & _); discriminate]. }
-    assert (DelN : forall k i, In k NS -> dict m k = Some i -> ddel_val (nid m) (dset b (nid m) (dset n (nid m) (dict m))) k = Some i).
-    { intros k i Hk Dk. apply Del. split; [exact Dk|]. split; intros ->; [contradiction|congruence]. }
-    constructor; unfold mk; cbn [dict heap calls now nid lst s_now s_map s_names s_lst].
-    - apply HR.
-    - apply HR.
-    - intros n' Hn'. unfold sdel. destruct (beqb n n') eqn:E.
-      + apply beqb_eq in E. subst n'.
-        destruct (ddel_val (nid m) (dset b (nid m) (dset n (nid m) (dict m))) n) as [i|] eqn:X; [|reflexivity].
-        apply Del in X as (_ & _ & X). congruence.
-      + pose proof (R_name _ _ HR n' Hn') as A. destruct (s_map s n') as [v'|].
-        * destruct A as (id' & D' & Hh). exists id'. split; [apply DelN; auto|].
-          assert (id' <> nid m) by (pose proof (R_fresh _ _ HR _ _ D'); lia).
-          rewrite !hset_other; auto.
-        * destruct (ddel_val (nid m) (dset b (nid m) (dset n (nid m) (dict m))) n') as [i|] eqn:X; [|reflexivity].
-          apply Del in X as (X & _). congruence.
-    - intros n' v'. unfold sdel. destruct (beqb n n'); [discriminate|].
-      intros H. apply In_names_add. right. eapply R_held; eauto.
+    intros HR Hn Sn.
+    assert (Sd : forall k, sdel n (s_map s) k = s_map s k).
+    { intros k. unfold sdel. destruct (beqb n k) eqn:E; [|reflexivity]. apply beqb_eq in E. subst. auto. }
+    constructor; cbn [s_now s_map s_names s_lst]; try apply HR.
+    - intros n' Hn'. rewrite Sd. apply (R_name _ _ HR n' Hn').
+    - intros n' v'. rewrite Sd. intros H. apply In_names_add. right. eapply R_held; eauto.
     - intros n' H. apply In_names_add in H as [->|H]; [exact Hn|]. eapply R_names; eauto.
-    - intros k i H. apply Del in H as [H _]. pose proof (R_fresh _ _ HR _ _ H). lia.
-    - intros t i H. apply In_cancel in H as [H _]. pose proof (R_cfresh _ _ HR _ _ H). lia.
-    - intros n1 n2 i H1 H2 A B. apply Del in A as [A _]. apply Del in B as [B _]. eapply R_inj; eauto.
-    - intros k i H Hk. apply Del in H as [H _]. destruct (R_addr _ _ HR k i H Hk) as (n' & Hn' & D').
-      exists n'. split; [exact Hn'|]. apply DelN; auto.
-    - apply sorted_filter. apply HR.
-    - apply nodup_cancel. apply HR.
-    - intros t i H. apply In_cancel in H as [H Hi].
-      destruct (R_call _ _ HR t i H) as (n' & v' & t0 & Hn' & D' & Sm & Ex & Tm).
-      exists n', v', t0. repeat split; auto. unfold sdel.
-      destruct (beqb n n') eqn:E; [apply beqb_eq in E; subst n'; congruence|exact Sm].
-    - intros n' v' t0 id' Hn' Sm Ex D'. unfold sdel in Sm. destruct (beqb n n') eqn:E; [discriminate|].
-      apply Del in D' as [D' _].
-      destruct (R_hascall _ _ HR n' v' t0 id' Hn' Sm Ex D') as (t & H).
-      exists t. apply In_cancel. split; [exact H|]. pose proof (R_fresh _ _ HR _ _ D'). lia.
-    - apply HR.
+    - intros t i H. destruct (R_call _ _ HR t i H) as (n' & v' & t0 & A & B & C & D & E).
+      exists n', v', t0. rewrite Sd. auto.
+    - intros n' v' t0 id' Hn'. rewrite Sd. intros A B C. exact (R_hascall _ _ HR n' v' t0 id' Hn' A B C).
   Qed.
 
   (* ---- add_listener ---- *)
@@ -941,38 +896,38 @@ Qed.
 Lemma step_sim NS m s o :
   R NS m s -> op_in_scope o = true -> op_within NS o ->
   exists m' es, step m o = Some (m', es) /\ R NS m' (spec_step s o) /\
-    (unheld_error_op s o = false -> stale_lookup_op s o = false -> chunk_ok s o es = true).
+    (stale_lookup_op s o = false -> chunk_ok s o es = true).
 Proof.
   intros HR Sc W. destruct o as [ts|dt|k|l].
   - cbn [op_in_scope] in Sc. destruct (parse_ev ts) as [v|] eqn:P; [|discriminate].
     destruct (W v P) as [Hn Hb]. cbn [step]. rewrite (update_char m ts v P).
-    cbn [spec_step chunk_ok unheld_error_op]. rewrite P.
+    cbn [spec_step chunk_ok]. rewrite P.
     change (if memB (v_name v) (s_names s) then s_names s else s_names s ++ [v_name v])
       with (names_add (v_name v) (s_names s)).
     unfold ev_key in *.
     destruct (dict m (v_name v)) as [id|] eqn:D; destruct (v_addr v) as [a|] eqn:Ad.
     + eexists _, _. split; [reflexivity|]. split; [apply R_upd; assumption|].
-      intros _ _. destruct (R_dict_held _ _ _ _ HR Hn id D) as (v0 & Sm & _). rewrite Sm. reflexivity.
+      intros _. destruct (R_dict_held _ _ _ _ HR Hn id D) as (v0 & Sm & _). rewrite Sm. reflexivity.
     + eexists _, _. split; [reflexivity|]. split; [apply R_herr; assumption|].
-      intros _ _. destruct (R_dict_held _ _ _ _ HR Hn id D) as (v0 & Sm & _). rewrite Sm.
+      intros _. destruct (R_dict_held _ _ _ _ HR Hn id D) as (v0 & Sm & _). rewrite Sm.
       rewrite <- (R_lst _ _ _ HR). apply chunk_eqb_refl.
     + assert (Sm : s_map s (v_name v) = None).
       { pose proof (R_name _ _ _ HR _ Hn) as A. destruct (s_map s (v_name v)); [|reflexivity].
         destruct A as (? & A & _). congruence. }
       eexists _, _. split; [reflexivity|]. split; [apply R_new; assumption|].
-      intros _ _. rewrite Sm, <- (R_lst _ _ _ HR). apply chunk_eqb_refl.
+      intros _. rewrite Sm, <- (R_lst _ _ _ HR). apply chunk_eqb_refl.
     + assert (Sm : s_map s (v_name v) = None).
       { pose proof (R_name _ _ _ HR _ Hn) as A. destruct (s_map s (v_name v)); [|reflexivity].
         destruct A as (? & A & _). congruence. }
       eexists _, _. split; [reflexivity|]. split; [apply R_nerr; assumption|].
-      rewrite Sm. intros A. discriminate A.
+      intros _. rewrite Sm. reflexivity.
   - cbn [step]. destruct (advance m dt) as [m' es] eqn:A.
     destruct (R_advance NS m s dt m' es HR A) as [HR' Ck].
-    exists m', es. split; [reflexivity|]. split; [exact HR'|]. intros _ _. exact Ck.
+    exists m', es. split; [reflexivity|]. split; [exact HR'|]. intros _. exact Ck.
   - cbn [step spec_step]. exists m, (find m k). split; [reflexivity|]. split; [exact HR|].
-    intros _ St. eapply find_chunk; eauto.
+    intros St. eapply find_chunk; eauto.
   - cbn [step]. eexists _, _. split; [reflexivity|]. split; [apply R_addl; exact HR|].
-    intros _ _. reflexivity.
+    intros _. reflexivity.
 Qed.
 
 (* ------------------------------------------------------------------------------------------ *)
@@ -981,7 +936,7 @@ Qed.
 Lemma run_sim NS h : forall m s,
   R NS m s -> in_scope h = true -> Forall (op_within NS) h ->
   exists m' tr, run_from m h = Some (m', tr) /\ R NS m' (fold_left spec_step h s) /\
-    (unheld_error_from s h = false -> stale_lookup_from s h = false -> oracle_from s h tr = true).
+    (stale_lookup_from s h = false -> oracle_from s h tr = true).
 Proof.
   induction h as [|o h IH]; intros m s HR Sc W.
   - exists m, []. split; [reflexivity|]. split; [exact HR|]. reflexivity.
@@ -990,9 +945,9 @@ Proof.
     destruct (step_sim NS m s o HR Sco Wo) as (m1 & es & St & HR1 & Ck).
     destruct (IH m1 (spec_step s o) HR1 Sc W') as (m' & tr & Rn & HR' & Or).
     exists m', (es :: tr). cbn [run_from fold_left]. rewrite St, Rn. split; [reflexivity|]. split; [exact HR'|].
-    cbn [unheld_error_from stale_lookup_from oracle_from]. intros A B.
-    apply orb_false_iff in A as [A1 A2]. apply orb_false_iff in B as [B1 B2].
-    rewrite (Ck A1 B1), (Or A2 B2). reflexivity.
+    cbn [stale_lookup_from oracle_from]. intros B.
+    apply orb_false_iff in B as [B1 B2].
+    rewrite (Ck B1), (Or B2). reflexivity.
 Qed.
 
 (* names and address keys of a history *)
@@ -1030,10 +985,10 @@ Qed.
 
 (* the main theorem: outside the three finding classes the model's trace satisfies the oracle *)
 Lemma model_satisfies_oracle h :
-  in_scope h = true -> key_collision h = false -> unheld_error h = false -> stale_lookup h = false ->
+  in_scope h = true -> key_collision h = false -> stale_lookup h = false ->
   exists tr, run h = Some tr /\ oracle h tr = true.
 Proof.
-  intros Sc Kc Ue Sl.
+  intros Sc Kc Sl.
   destruct (run_sim (ev_names h) h m0 s0 (R_init _) Sc (within_self h Kc)) as (m' & tr & Rn & _ & Or).
   exists tr. unfold run. rewrite Rn. split; [reflexivity|]. apply Or; assumption.
 Qed.
@@ -1206,7 +1161,9 @@ Proof.
   rewrite beqb_refl. reflexivity.
 Qed.
 
-(* ---- the full-strength statement is false of the faithful model: three witnesses ---- *)
+(* ---- the full-strength statement is false of the faithful model: two witnesses.
+        wit_unheld_error was the witness of C20-F1 (repaired in /repo a1d3211): the oracle now ACCEPTS
+        the model's trace on it (unheld_error_accepted) ---- *)
 Definition W (l : list N) : tok := {| t_pre := str l; t_time := None |}.
 Definition T (t : Z) : tok := {| t_pre := []; t_time := Some t |}.
 Definition X (t : Z) : tok := {| t_pre := w_EXPIRES; t_time := Some t |}.
@@ -1225,14 +1182,11 @@ Definition wit_stale : list op :=
 Definition refutes (h : list op) : bool :=
   in_scope h && match run h with Some tr => negb (oracle h tr) | None => false end.
 
-Lemma unheld_error_refuted :
-  refutes wit_unheld_error = true /\ key_collision wit_unheld_error = false /\ stale_lookup wit_unheld_error = false.
-Proof. vm_compute. auto. Qed.
 Lemma collision_refuted :
-  refutes wit_collision = true /\ unheld_error wit_collision = false /\ stale_lookup wit_collision = false.
+  refutes wit_collision = true /\ stale_lookup wit_collision = false.
 Proof. vm_compute. auto. Qed.
 Lemma stale_refuted :
-  refutes wit_stale = true /\ unheld_error wit_stale = false /\ key_collision wit_stale = false.
+  refutes wit_stale = true /\ key_collision wit_stale = false.
 Proof. vm_compute. auto. Qed.
 
 Lemma refutes_elim h : refutes h = true ->
@@ -1242,26 +1196,24 @@ Proof.
   destruct (run h) as [tr|]; [|discriminate]. exists tr. split; [reflexivity|]. now apply negb_true_iff in A2.
 Qed.
 
-Lemma unheld_error_refuted_ex : exists h,
-  in_scope h = true /\ key_collision h = false /\ stale_lookup h = false /\
-  exists tr, run h = Some tr /\ oracle h tr = false.
-Proof.
-  exists wit_unheld_error. destruct unheld_error_refuted as (A & B & C).
-  destruct (refutes_elim _ A) as [A1 A2]. auto.
-Qed.
-
 Lemma collision_refuted_ex : exists h,
-  in_scope h = true /\ unheld_error h = false /\ stale_lookup h = false /\
+  in_scope h = true /\ stale_lookup h = false /\
   exists tr, run h = Some tr /\ oracle h tr = false.
 Proof.
-  exists wit_collision. destruct collision_refuted as (A & B & C).
+  exists wit_collision. destruct collision_refuted as (A & B).
   destruct (refutes_elim _ A) as [A1 A2]. auto.
 Qed.
 
 Lemma stale_refuted_ex : exists h,
-  in_scope h = true /\ unheld_error h = false /\ key_collision h = false /\
+  in_scope h = true /\ key_collision h = false /\
   exists tr, run h = Some tr /\ oracle h tr = false.
 Proof.
-  exists wit_stale. destruct stale_refuted as (A & B & C).
+  exists wit_stale. destruct stale_refuted as (A & B).
   destruct (refutes_elim _ A) as [A1 A2]. auto.
 Qed.
+
+(* the former witness of C20-F1 is now inside the proved class *)
+Lemma unheld_error_accepted :
+  in_scope wit_unheld_error = true /\ key_collision wit_unheld_error = false /\ stale_lookup wit_unheld_error = false /\
+  run wit_unheld_error = Some [[]; []].
+Proof. vm_compute. auto. Qed.
